@@ -1,11 +1,11 @@
 package main
 
 import (
-	"os"
-	"sort"
 	"fmt"
 	"go/token"
 	"go/types"
+	"os"
+	"sort"
 	"strings"
 
 	"golang.org/x/tools/go/ssa"
@@ -578,6 +578,23 @@ func (c *FnCtx) callUnknownOpaque(fr *Frame, st *State, fv Val, ft types.Type, a
 
 // invoke: interface method call.
 func (c *FnCtx) invoke(fr *Frame, st *State, recv Val, m *types.Func, args []Val, pos token.Pos) *Val {
+	r := c.invokeInner(fr, st, recv, m, args, pos)
+	if r != nil && c.spec != nil {
+		for _, t := range c.spec.Track {
+			if t == m.Name() {
+				// lastcall(M) for a tracked interface method: the result of the latest call on the path taken
+				nv := *r
+				if prev, ok := c.lastCall[m.Name()]; ok && st.guard != "true" {
+					nv = c.iteVal(st.guard, nv, prev)
+				}
+				c.lastCall[m.Name()] = nv
+			}
+		}
+	}
+	return r
+}
+
+func (c *FnCtx) invokeInner(fr *Frame, st *State, recv Val, m *types.Func, args []Val, pos token.Pos) *Val {
 	sig := m.Type().(*types.Signature)
 	resT := sig.Results()
 	if c.spec != nil {
@@ -655,6 +672,15 @@ func (c *FnCtx) invoke(fr *Frame, st *State, recv Val, m *types.Func, args []Val
 				c.assumed["Context() of a stream never returns nil"] = true
 			}
 			vs = append(vs, v)
+		}
+		if cb.ValueOrError && len(vs) == 2 && typeKey(resT.At(1).Type()) == "error" {
+			// a generated gRPC client stub answers with a usable value or with an error (assumed, listed)
+			nonnil := "(not (= " + vs[0].E + " 0))"
+			if c.ty.SortOf(vs[0].T) == sIface {
+				nonnil = "(not (= (i-tag " + vs[0].E + ") 0))"
+			}
+			c.assume(st, "(or (not (= (i-tag "+vs[1].E+") 0)) "+nonnil+")")
+			c.assumed["interface method "+cb.Name+" returns a non-nil value whenever it returns no error"] = true
 		}
 		return tupleVal(resT, vs)
 	}
